@@ -934,6 +934,12 @@ func (a PopScopeTransferToDataStackInstr) Execute(env *Zlisp) error {
 type PrepareCallInstr struct {
 	sym   *SexpSymbol
 	nargs int
+	// skip is the distance to the ordinary call instruction that
+	// follows the jump of the tail call sequence. It is taken when the
+	// name does not, at run time, denote the function that is running
+	// (the name was bound to something else while an alias of the old
+	// function is still in use): then there is no self call to optimise.
+	skip int
 }
 
 func (c PrepareCallInstr) InstrString() string {
@@ -941,17 +947,25 @@ func (c PrepareCallInstr) InstrString() string {
 }
 
 func (c PrepareCallInstr) Execute(env *Zlisp) error {
-	if err := c.execute(env); err != nil {
+	self, err := c.execute(env)
+	if err != nil {
 		return err
+	}
+	if !self && c.skip > 0 {
+		env.pc += c.skip
+		return nil
 	}
 	env.pc++
 	return nil
 }
 
-func (c PrepareCallInstr) execute(env *Zlisp) error {
+// execute marshals the arguments for the jump back to the start of the
+// running function. It reports false, leaving the arguments as they
+// are, when the callee is not the running function.
+func (c PrepareCallInstr) execute(env *Zlisp) (bool, error) {
 	_, ok := env.builtins[c.sym.number]
 	if ok {
-		return nil
+		return true, nil
 	}
 	var funcobj, indirectFuncName Sexp
 	var err error
@@ -959,67 +973,56 @@ func (c PrepareCallInstr) execute(env *Zlisp) error {
 	funcobj, err, _ = env.LexicalLookupSymbol(c.sym, nil)
 
 	if err != nil {
-		return err
+		return true, err
 	}
+	var callee *SexpFunction
 	switch f := funcobj.(type) {
 	case *SexpSymbol:
 		if c.sym.isDot {
 
 			dotSymRef, dotLookupErr := dotGetSetHelper(env, c.sym.name, nil)
 			if dotLookupErr != nil {
-				return dotLookupErr
+				return true, dotLookupErr
 			}
 			indirectFuncName = dotSymRef
 		} else {
 			indirectFuncName, err = dotGetSetHelper(env, f.name, nil)
 			if err != nil {
-				return fmt.Errorf("'%s' refers to symbol '%s', but '%s' could not be resolved: '%s'.",
+				return true, fmt.Errorf("'%s' refers to symbol '%s', but '%s' could not be resolved: '%s'.",
 					c.sym.name, f.name, f.name, err)
 			}
 		}
-
-		switch g := indirectFuncName.(type) {
-		case *SexpFunction:
-			if !g.user {
-				nargs := c.nargs
-				if err := env.resolveDotArgsOnStack(nargs); err != nil {
-					return err
-				}
-				// the jump of a tail call must not skip the name and type
-				// checks an ordinary call of a typed function gets.
-				if g.inputTypes != nil && !g.varargs {
-					if err := env.FunctionCallNameTypeCheck(g, &nargs); err != nil {
-						return err
-					}
-				} else if err := env.prepareLazyCallArgs(g, &nargs); err != nil {
-					return err
-				}
-				if g.varargs {
-					return env.wrangleOptargs(g.nargs, nargs)
-				}
-			}
-			return nil
-		}
+		callee, _ = indirectFuncName.(*SexpFunction)
 
 	case *SexpFunction:
-		if !f.user {
-			nargs := c.nargs
-			if err := env.resolveDotArgsOnStack(nargs); err != nil {
-				return err
-			}
-			// the jump of a tail call must not skip the name and type
-			// checks an ordinary call of a typed function gets.
-			if f.inputTypes != nil && !f.varargs {
-				if err := env.FunctionCallNameTypeCheck(f, &nargs); err != nil {
-					return err
-				}
-			} else if err := env.prepareLazyCallArgs(f, &nargs); err != nil {
-				return err
-			}
-			if f.varargs {
-				return env.wrangleOptargs(f.nargs, nargs)
+		callee = f
+	}
+	if c.skip > 0 && callee != env.curfunc {
+		if callee != nil && !callee.user {
+			if err := env.resolveDotArgsOnStack(c.nargs); err != nil {
+				return true, err
 			}
 		}
+		return false, nil
 	}
-	return nil
+	if callee == nil || callee.user {
+		return true, nil
+	}
+	nargs := c.nargs
+	if err := env.resolveDotArgsOnStack(nargs); err != nil {
+		return true, err
+	}
+	// the jump of a tail call must not skip the name and type
+	// checks an ordinary call of a typed function gets.
+	if callee.inputTypes != nil && !callee.varargs {
+		if err := env.FunctionCallNameTypeCheck(callee, &nargs); err != nil {
+			return true, err
+		}
+	} else if err := env.prepareLazyCallArgs(callee, &nargs); err != nil {
+		return true, err
+	}
+	if callee.varargs {
+		return true, env.wrangleOptargs(callee.nargs, nargs)
+	}
+	return true, nil
 }
